@@ -4,7 +4,7 @@
 set -e
 HERE="$(cd "$(dirname "${BASH_SOURCE[0]}")" && pwd)"
 export GOTOOLCHAIN=local GOFLAGS=-mod=mod GOPROXY=off GOCACHE="${VERIF_GOCACHE:-/verif/.gocache}"
-GO=/root/go/pkg/mod/golang.org/toolchain@v0.0.1-go1.25.0.linux-amd64/bin/go
+GO="${VERIF_GO:-/root/go/pkg/mod/golang.org/toolchain@v0.0.1-go1.25.0.linux-amd64/bin/go}"
 if [ ! -x "$GO" ]; then GO=go1.26.8; fi
 SCR="$1"; RACE="$2"
 REPO="${VERIF_REPO:-/repo}"
